@@ -43,6 +43,9 @@ SEEDS = [
     "{ a { id } } query B { a { id } }",  # LoneAnonymousOperation
     "subscription { s t }",  # SingleFieldSubscriptions
     "subscription { __typename }",
+    "subscription { s @skip(if: true) }",  # forbidden @skip / @include on the root field of a subscription
+    "subscription A { s t } subscription B { s @include(if: false) }",
+    "subscription A { s @skip(if: true) } subscription B { s t }",
     "query ($v: Nope) { arg(i: 1) a { ... on Nope2 { id } } }",  # KnownTypeNames
     "{ a { ... on E { id } } } ",  # FragmentsOnCompositeTypes (E is an enum)
     "fragment F on E { x } { a { ...F } }",
